@@ -79,9 +79,16 @@ def frame(data, body, order):
     return (".data\n" + data + "\n.text\n" + body + "\n") if order == 0 else (body + "\n.data\n" + data + "\n")
 
 
+DIRTY = ".data\nd: .word " + ", ".join(["0xFFFFFFFF"] * 40) + "\ne: .string \"0123456789\"\n.text\naddi x1, x0, 1\n"
+
+
 def check_decls(decls, radix, order, with_stores, p):
     """Assemble + run accessor programs for this data segment. Returns list of (field, detail, text)."""
     mem, vars_, end, dontcare = layout(decls)
+    # every other case is loaded into a simulation that has loaded (not run) another program with a bigger, non-zero data segment
+    before = DIRTY if (len(decls) + radix + order) % 2 == 0 else None
+    if before:
+        p.counters["loaded-over-an-earlier-program"] += 1
     data = render_data(decls, radix)
     bad = []
     # accessors: la / width-matching load for every variable and every index 0..len (one past the end included)
@@ -116,7 +123,7 @@ def check_decls(decls, radix, order, with_stores, p):
         text = frame(data, "\n".join(lines), order)
         p.evaluations += 1
         try:
-            a = asm.assemble(text)
+            a = asm.assemble(text, before=before)
         except CaseTimeout:
             return [("termination", "load_program did not terminate", text)]
         except Exception as e:  # noqa
@@ -176,7 +183,7 @@ def check_decls(decls, radix, order, with_stores, p):
             text = frame(data, "\n".join(lines), order)
             p.evaluations += 1
             try:
-                a = asm.assemble(text)
+                a = asm.assemble(text, before=before)
                 sim = a.sim
                 n = 0
                 while not sim.is_done() and n < 200:
@@ -357,7 +364,7 @@ def replay(case):
 def run(ctx):
     thorough = not ctx.quick
     ctx.rule = ("(a) every sequence of up to 2 (3) declarations over 18 shapes (.byte/.half/.word with 1-5 values incl. negative and out-of-range literals in three "
-                "radices, .string of 0-4 characters, .zero 0-2 and .zero 510 / 1023 so that later variables straddle a 2 KiB boundary), .data before and after .text; for every variable and every index 0..len (one past the end) a la, "
+                "radices, .string of 0-4 characters, .zero 0-2 and .zero 510 / 1023 so that later variables straddle a 2 KiB boundary), .data before and after .text, every other case loaded into a simulation that had already loaded (not run) a program with a larger non-zero data segment; for every variable and every index 0..len (one past the end) a la, "
                 "a zero- and a sign-extending width-matching load-by-name, and (for every element) a store-by-name. Oracles: reference layout (first data address, "
                 "4-byte alignment of every variable, strides 1/2/4, little-endian, values mod element width, NUL terminator, .zero n = n words of stride 4): byte image "
                 "over the whole segment, registers after running the program, memory after the stores, and memory-table rows for every word holding a declared byte. "
@@ -387,4 +394,4 @@ def run(ctx):
     if d:
         part.violation(dict(oracle="example", field="registers"), dict(kind="example"), d)
     ctx.space("help-page-example", part, t0)
-    ctx.require("alignment-after-odd-sized-variable", "string", "zero-reservation", "li-carry-into-upper-part", "variable-behind-a-2KiB-boundary")
+    ctx.require("alignment-after-odd-sized-variable", "string", "zero-reservation", "li-carry-into-upper-part", "variable-behind-a-2KiB-boundary", "loaded-over-an-earlier-program")
